@@ -91,18 +91,18 @@ def planarCheck (evs : Array SubEv) (a b : MPoly) (tol : Rat) (full : Bool) : Op
       let (l, r) := if ptBefore e.1 e.2 then (e.1, e.2) else (e.2, e.1)
       let pieces := subs.filter (fun v => v.subj == subj && nearSeg v.point e tol && nearSeg (v.other.getD v.point) e tol)
       -- pieces are followed in either direction (rounding can turn a piece of a nearly vertical edge
-      -- around); each piece is used once
-      let rec walk : Nat → Pt → List Nat → Bool
-        | 0, _, _ => false
-        | fuel + 1, cur, used =>
-          if cur = r then true else
-          match (List.range pieces.size).find? (fun i =>
-              !used.contains i && (pieces[i]!.point = cur || pieces[i]!.other = some cur)) with
-          | some i =>
-            let v := pieces[i]!
-            walk fuel (if v.point = cur then v.other.getD cur else v.point) (i :: used)
-          | none => false
-      walk (pieces.size + 1) l []
+      -- around); a chain exists iff `r` is reachable from `l` through pieces (a greedy walk can run into a
+      -- short piece of a neighbouring edge that lies within the tolerance and dead-end there)
+      let rec reach : Nat → List Pt → Bool
+        | 0, seen => seen.contains r
+        | fuel + 1, seen =>
+          if seen.contains r then true else
+          let next := pieces.foldl (fun (acc : List Pt) v =>
+            let o := v.other.getD v.point
+            let acc := if seen.contains v.point && !seen.contains o && !acc.contains o then o :: acc else acc
+            if seen.contains o && !seen.contains v.point && !acc.contains v.point then v.point :: acc else acc) []
+          if next.isEmpty then false else reach fuel (next ++ seen)
+      reach (pieces.size + 1) [l]
     if (inputEdges a).any (fun e => !chainOk e true) then some "a subject edge is not covered by a chain of its sub-segments" else
     if (inputEdges b).any (fun e => !chainOk e false) then some "a clipping edge is not covered by a chain of its sub-segments" else
     none
